@@ -258,6 +258,17 @@ class Cascade:
                         stage_results.append(stage_result)
                         blocked_at = stage.name
                         break
+                    # A gate that raises never opens: fail closed and move on
+                    stage_results.append(StageResult(
+                        stage_name=stage.name,
+                        status=StageStatus.FAILED,
+                        input_signal=current_signal,
+                        output_signal=None,
+                        error=str(e),
+                        processing_time_ms=(time.time() - stage_start) * 1000
+                    ))
+                    blocked_at = stage.name
+                    continue
 
             # Process stage
             try:
